@@ -23,7 +23,7 @@ reg("C19",
     level="model_checking",
     technique="explicit-state BFS over the real ll_l2cap_sdu_buffer<ll_data_pdu_buffer<..>, .., MTU> placed in an exact-size heap block under ASan: a reference central feeds every sequence of start/continuation/control/LLID-0 PDUs through the radio interface and reassembles what is transmitted; field-wise frame diff (offsetof) of the object against its pre-image, payload non-interference re-run, delivered SDU explained by the fragments sent, bounded-liveness drain on the transmit side, plus the product of every SDU size 0..MTU x ring fill level",
     rule="state = byte image of the whole object + reference central; transition = one real call sequence (radio: allocate_receive_buffer+received; link layer: next_ll_l2cap_received x2 [+free]; L2CAP: allocate+commit; exchange; poll; max_tx_size switch); classes = (event kind, outcome, input class) kinds",
-    bound="MTU in {24,65,100} x max_rx/max_tx in {29,60,251} (+ nRF encrypted layout for 65/29, thorough also 24/60 and 100/60). RX: full alphabet (length field {1,MTU,MTU+1,0xffff} (thorough +0, MTU-1) x body {0,3,(4),L+4,max}; continuation {0,1,10,max,rest}; control; LLID 0; consume) to depth 4 (thorough 5) and reduced alphabet (7 events) to depth 7 (thorough 9). TX: 11 SDU sizes around the fragment boundaries + control PDUs 1/27 + exchange + poll + max_tx_size switch to depth 5 (thorough 7) with a 40-exchange drain from every state; product run over every SDU size 0..MTU x 0..3 queued PDUs x 3 ring positions x both max_tx_size settings",
+    bound="MTU in {24,65,100} x max_rx/max_tx in {29,60,251} (+ nRF encrypted layout for 65/29, thorough also 24/60 and 100/60). RX: full alphabet (length field {1,MTU,MTU+1,0xffff} (thorough +0, MTU-1) x body {0,3,(4),L+4,max}; continuation {0,1,10,max,rest}; control; LLID 0; consume) to depth 4 (max 251: 3) and reduced alphabet (7 events) to depth 7 (thorough 9; max 251: 6 / 7). TX: 11 SDU sizes around the fragment boundaries + control PDUs 1/27 + exchange + poll + max_tx_size switch to depth 5 (thorough 7) for max 29 and depth 4 (thorough 5) where max_tx_size can be switched (max != 29), with a 40-exchange drain from every state; product run over every SDU size 0..MTU x 0..3 queued PDUs x 3 ring positions x both max_tx_size settings",
     units=[dict(src="harness/C19_rx.cpp", asan=True, flags=["-I/verif/harness/C18_stub"], variants=_c19_rx_variants),
            dict(src="harness/C19_tx.cpp", asan=True, flags=["-I/verif/harness/C18_stub"], variants=_c19_tx_variants)],
     quick_deadline=40, thorough_deadline=540,
